@@ -457,6 +457,8 @@ func (s *Sim) Step(op *Op) {
 		s.opMatrix(op)
 	case KCodec:
 		s.opCodec(op)
+	case KQMisuse:
+		s.opQMisuse(op)
 	default:
 		bug("unknown op kind %q", op.K)
 	}
